@@ -292,3 +292,51 @@ func H_no_return() {
 	}
 	same(got, ok, want, "no-return: `"+decl+"`")
 }
+
+// H_foreach_body_writes: a by-value foreach iterates the array as it was when the loop was
+// entered: the body may overwrite elements not yet visited, append, or remove elements of the
+// array it iterates; the values (and keys) visited do not change, and the array afterwards holds
+// the writes.
+func H_foreach_body_writes() {
+	a, b, d := symx.Int("a"), symx.Int("b"), symx.Int("d")
+	k := symx.IntRange("k", 0, 2)
+	w := symx.Choose("write", 5)
+	shape := symx.Choose("shape", 2)
+	lit := []string{"[$a, $b, 7]", "[\"x\" => $a, \"y\" => $b, \"z\" => 7]"}[shape]
+	key2 := []string{"2", "\"z\""}[shape]
+	writes := []string{
+		"$arr[" + key2 + "] = $d;",
+		"$arr[] = $d;",
+		"unset($arr[" + key2 + "]);",
+		"$arr = [$d];",
+		"$arr[" + key2 + "] = $d; $arr[] = $d;",
+	}
+	src := "$arr = " + lit + "; $n = 0;\nforeach ($arr as $key => $v) { if ($n == $k) { " + writes[w] + " } emit($v); $n++; }\nemit(999);"
+	got, ok := run(src, map[string]int{"a": a, "b": b, "d": d, "k": k})
+	same(got, ok, []int{a, b, 7, 999}, "foreach body writes `"+writes[w]+"`")
+}
+
+// H_foreach_nested_same: two foreach loops over the SAME array, nested (directly, or with the inner
+// loop in a function that receives the array): each loop has its own position.
+func H_foreach_nested_same() {
+	a, b := symx.Int("a"), symx.Int("b")
+	shape, inner := symx.Choose("shape", 3), symx.Choose("inner", 3)
+	lit := []string{"[$a, $b]", "[\"x\" => $a, \"y\" => $b]", "[\"x\" => $a, 5 => $b]"}[shape]
+	var src string
+	switch inner {
+	case 0:
+		src = "$arr = " + lit + "; foreach ($arr as $v) { foreach ($arr as $w) { emit($v); emit($w); } }"
+	case 1:
+		src = "function each2($x, $v) { foreach ($x as $w) { emit($v); emit($w); } return 0; } $arr = " + lit + "; foreach ($arr as $v) { each2($arr, $v); }"
+	case 2:
+		src = "$arr = " + lit + "; foreach ($arr as $k => $v) { foreach ($arr as $k2 => $w) { if ($k2 == $k) { continue; } emit($v); emit($w); } emit($v); emit($v); }"
+	}
+	got, ok := run(src+" emit(999);", map[string]int{"a": a, "b": b})
+	var want []int
+	if inner == 2 {
+		want = []int{a, b, a, a, b, a, b, b, 999}
+	} else {
+		want = []int{a, a, a, b, b, a, b, b, 999}
+	}
+	same(got, ok, want, "nested foreach over the same array")
+}
